@@ -10,6 +10,83 @@ import traceback
 from . import common
 
 
+def _start_watchdog(ctx) -> None:
+    """A single call into the real code that runs for minutes, or that makes this process grow by gigabytes, is
+    an observation about the real code (on the tree these checks were built against no call takes more than a few
+    seconds): it is reported as a violation with the stack as replay instead of letting the check hang until
+    somebody kills it.  Only a call that is continuously on the stack is measured — the same FRAME OBJECT, held
+    alive here so that its identity cannot be reused — never time spent in the harness, in lake or in children."""
+    import threading
+    import time
+    repo = str(common.REPO) + "/pytato"
+    main_id = threading.main_thread().ident
+    call_budget = float(os.environ.get("VERIF_CALL_BUDGET_S", "300"))
+    rss_budget = float(os.environ.get("VERIF_RSS_BUDGET_GB", "16")) * (1 << 30)
+    page = os.sysconf("SC_PAGE_SIZE")
+
+    def outermost_real_frame():
+        f = sys._current_frames().get(main_id)
+        found, chain = None, []
+        while f is not None:
+            chain.append(f)
+            if f.f_code.co_filename.startswith(repo):
+                found = f
+            f = f.f_back
+        return found, chain
+
+    def loop():
+        held, since = None, time.time()
+        while True:
+            time.sleep(2.0)
+            try:
+                fr, chain = outermost_real_frame()
+                if fr is None or fr is not held:
+                    held, since = fr, time.time()
+                    continue
+                with open("/proc/self/statm") as fh:
+                    rss = int(fh.read().split()[1]) * page
+                dur = time.time() - since
+                why = None
+                if dur > call_budget:
+                    why = f"has been running for {int(dur)} s"
+                elif rss > rss_budget and dur > 20:
+                    why = f"has grown this process to {rss / (1 << 30):.1f} GiB"
+                if why is None:
+                    continue
+                k = chain.index(fr)
+                caller = chain[k + 1] if k + 1 < len(chain) else None
+                inner = chain[0]
+                stack = [f"{c.f_code.co_filename}:{c.f_lineno} {c.f_code.co_name}" for c in chain[max(0, k - 12):k + 4]]
+                loc = {}
+                if caller is not None:
+                    for nm, v in list(caller.f_locals.items())[:40]:
+                        try:
+                            r = repr(v)
+                        except Exception:   # noqa: BLE001
+                            r = "<unrepresentable>"
+                        if len(r) <= 200:
+                            loc[nm] = r
+                name = f"{fr.f_code.co_filename[len(repo) + 1:]}:{fr.f_code.co_name}"
+                ctx.violation(f"resource:real-code-does-not-finish:{name}",
+                              f"one call of {name} (from {caller.f_code.co_filename.split('/')[-1] if caller else '?'}:"
+                              f"{caller.f_lineno if caller else '?'}) {why}; innermost frame "
+                              f"{inner.f_code.co_filename.split('/')[-1]}:{inner.f_lineno} {inner.f_code.co_name}, stack "
+                              f"depth {len(chain)} — on the tree this check was built against no call takes more than seconds",
+                              {"stack_outer_to_inner": stack[::-1], "caller_locals": loc, "seed": ctx.seed,
+                               "budget_s": call_budget, "rss_budget_bytes": rss_budget})
+                ctx.coverage["aborted_by_watchdog"] = why
+                rc = 1
+                try:
+                    rc = ctx.finish()
+                finally:
+                    sys.stdout.flush()
+                    os._exit(rc or 1)
+            except Exception:   # noqa: BLE001  (the watchdog must never take a healthy check down)
+                traceback.print_exc()
+                return
+    threading.Thread(target=loop, name="verif-watchdog", daemon=True).start()
+
+
 def main(argv=None) -> int:
     ap = argparse.ArgumentParser()
     ap.add_argument("prop")
@@ -31,6 +108,7 @@ def main(argv=None) -> int:
     except ModuleNotFoundError as e:
         print(f"no check for property {prop}: {e}", file=sys.stderr)
         return 2
+    _start_watchdog(ctx)
     try:
         if args.replay:
             rc = mod.replay(ctx, args.replay)
